@@ -1,0 +1,28 @@
+//go:build verif
+
+// Contracts for directoryBackedPersistentStateStore (property C02: the state
+// file is replaced atomically and only by data that is already durable).
+// Comment-only file.
+package local
+
+// unsafeRenames(d): number of renames in directory d of a file whose contents
+// had not been fsynced at the time of the rename.
+//@ ghost unsafeRenames(ref) int
+
+//@ extern google.golang.org/protobuf/proto.Marshal
+//@   modifies nothing
+//@ extern google.golang.org/protobuf/proto.Unmarshal
+//@   modifies *
+//@ extern os.IsNotExist
+//@   modifies nothing
+
+// The new state is written to a temporary file, made durable, and only then
+// renamed over the old state; the rename itself is made durable before success
+// is reported. The file handle is closed on every path (LINEAR obligations).
+//@ func (directoryBackedPersistentStateStore).WritePersistentState
+//@   requires pss.directory != nil
+//@   atcall Rename unsafeRenames(pss.directory) := unsafeRenames(pss.directory) + fdirty(f)
+//@   ensures [data-durable-before-rename] unsafeRenames(pss.directory) == old(unsafeRenames(pss.directory))
+//@   ensures [replaced-once] result == nil ==> renames(pss.directory) == old(renames(pss.directory)) + 1
+//@   ensures [rename-durable] result == nil ==> ddirty(pss.directory) == 0
+//@   ensures [old-state-kept-on-early-error] renames(pss.directory) == old(renames(pss.directory)) || renames(pss.directory) == old(renames(pss.directory)) + 1
